@@ -296,24 +296,185 @@ def rf_pow(a, n):
 
 # ---------------------------------------------------------------- term -> RatFun
 class Normaliser:
-    def __init__(self):
+    def __init__(self, assume=()):
         self.atoms = Atoms()
         self.memo = {}
         self.sqrt_defs = {}  # atom id -> RatFun of the radicand
+        self.assume = [a for a in assume if not isinstance(a, bool)]
+        self.atom_terms = {}  # atom id -> R term (for SMT side conditions)
+        self._sign_cache = {}
+        self.log_expansions = 0
+
+    # ---- log(a*b/c) = log a + log b - log c, each factor's sign proved by z3 under ``assume``
+    def poly_term(self, p):
+        from .sym import add as r_add, mul as r_mul, power as r_pow, ZERO
+
+        tot = ZERO
+        for m, c in p.items():
+            t = R.const(c)
+            for i, e in m:
+                t = r_mul(t, r_pow(self.atom_terms[i], e))
+            tot = r_add(tot, t)
+        return tot
+
+    def poly_sign(self, p):
+        """+1 / -1 if z3 proves p > 0 / p < 0 under the assumptions, else 0."""
+        from .smt import check_sat
+        from .sym import compare, ZERO
+
+        k = p_key(p)
+        if k in self._sign_cache:
+            return self._sign_cache[k]
+        sign = 0
+        if len(p) == 1 and () in p:
+            sign = 1 if p[()] > 0 else -1
+        elif self.assume:
+            t = self.poly_term(p)
+            le = compare("<=", t, ZERO)
+            ge = compare("<=", ZERO, t)
+            if check_sat(self.assume + [le], 3000, use_cvc5=False)[0] == "unsat":
+                sign = 1
+            elif check_sat(self.assume + [ge], 3000, use_cvc5=False)[0] == "unsat":
+                sign = -1
+        self._sign_cache[k] = sign
+        return sign
+
+    def logabs_single(self, t):
+        """log|p| for a single polynomial argument of proved sign -> the log atom of sign*p."""
+        r = self.norm(t.args[1])
+        if r.den or not r.num:
+            return None
+        pm, c = p_monic(r.num)
+        sg = self.poly_sign(pm)
+        if not sg:
+            return None
+        out = RatFun({})
+        if abs(c) != 1:
+            i = self.atoms.get(("f", "log", ("const", abs(c))), ("f", ("log", str(abs(c)))))
+            self.atom_terms.setdefault(i, R("f", ("log", R.const(abs(c)))))
+            out = rf_add(out, RatFun(p_atom(i)))
+        q = p_scale(pm, sg)
+        i = self.atoms.get(("f", "log", ("poly", p_key(q))), ("f", ("log", self.show_poly(q, 4))))
+        self.atom_terms.setdefault(i, R("f", ("log", self.poly_term(q))))
+        return rf_add(out, RatFun(p_atom(i)))
+
+    def factorise(self, p):
+        """Factor a monic polynomial over Q with sympy; the result is VERIFIED by exact
+        re-multiplication (so the CAS is not trusted), else the polynomial is kept whole."""
+        k = ("fac", p_key(p))
+        if k in self._sign_cache:
+            return self._sign_cache[k]
+        out = [(p, 1)]
+        if 2 <= len(p) <= 60:
+            try:
+                import sympy
+
+                ids = sorted({i for m in p for i, _ in m})
+                syms = {i: sympy.Symbol(f"a{i}") for i in ids}
+                expr = sum(sympy.Rational(c.numerator, c.denominator) * sympy.Mul(*[syms[i] ** e for i, e in m]) for m, c in p.items())
+                const, facs = sympy.factor_list(expr)
+                if len(facs) > 1 or (facs and facs[0][1] > 1):
+                    cand = []
+                    for f, e in facs:
+                        poly = sympy.Poly(f, *[syms[i] for i in ids])
+                        q = {}
+                        for mon, c in poly.terms():
+                            m = tuple((ids[j], int(pw)) for j, pw in enumerate(mon) if pw)
+                            q[m] = Fraction(int(c.p), int(c.q))
+                        qm, lc = p_monic(q)
+                        cand.append((qm, int(e)))
+                    prod = p_const(1)
+                    for q, e in cand:
+                        prod = p_mul(prod, p_pow(q, e))
+                    lm = p_lead(p)
+                    if lm in prod and p_key(p_scale(prod, p[lm] / prod[lm])) == p_key(p):
+                        out = [(p_const(p[lm] / prod[lm]), 1)] + cand
+            except Exception:  # pragma: no cover
+                out = [(p, 1)]
+        self._sign_cache[k] = out
+        return out
+
+    def log_expand(self, t):
+        """RatFun for log(arg) as a sum of logs of sign-fixed irreducible-looking factors, or None."""
+        r = self.norm(t.args[1])
+        if not r.num:
+            return None
+        common = None
+        for m in r.num:
+            dm = dict(m)
+            common = dm if common is None else {i: min(e, dm[i]) for i, e in common.items() if i in dm}
+        common = {i: e for i, e in (common or {}).items() if e > 0}
+        prim = {}
+        for m, c in r.num.items():
+            nm = tuple((i, e - common.get(i, 0)) for i, e in m)
+            prim[tuple(x for x in nm if x[1] != 0)] = c
+        primm, c = p_monic(prim)
+        factors = [(p_atom(i), e) for i, e in common.items()]
+        if not (len(primm) == 1 and () in primm):
+            for f, e in self.factorise(primm):
+                factors.append((f, e))
+        for _, (p, e) in r.den.items():
+            for f, e2 in self.factorise(p):
+                factors.append((f, -e * e2))
+        if t.args[0] == "log" and len(factors) <= 1 and c == 1 and (not factors or factors[0][1] == 1):
+            return None  # nothing to expand
+        # constant factors produced by the factorisation are folded into c
+        nf_ = []
+        for p, e in factors:
+            if len(p) == 1 and () in p:
+                c = c * p[()] ** e
+            else:
+                nf_.append((p, e))
+        factors = nf_
+        total_sign = 1 if c > 0 else -1
+        pieces = []
+        for p, e in factors:
+            sg = self.poly_sign(p)
+            if sg == 0:
+                return None
+            if sg < 0 and e % 2:
+                total_sign = -total_sign
+            pieces.append((p_scale(p, sg), e))
+        if total_sign < 0 and t.args[0] != "logabs":
+            return None
+        out = RatFun({})
+        if abs(c) != 1:
+            i = self.atoms.get(("f", "log", ("const", abs(c))), ("f", ("log", str(abs(c)))))
+            self.atom_terms.setdefault(i, R("f", ("log", R.const(abs(c)))))
+            out = rf_add(out, RatFun(p_atom(i)))
+        for p, e in pieces:
+            i = self.atoms.get(("f", "log", ("poly", p_key(p))), ("f", ("log", self.show_poly(p, 4))))
+            self.atom_terms.setdefault(i, R("f", ("log", self.poly_term(p))))
+            out = rf_add(out, RatFun(p_scale(p_atom(i), e)))
+        self.log_expansions += 1
+        return out
 
     def atom_for(self, t):
         if t.op == "v":
-            return self.atoms.get(("v", t.args[0]), ("v", t.args[0]))
-        if t.op == "f":
+            i = self.atoms.get(("v", t.args[0]), ("v", t.args[0]))
+        elif t.op == "f":
+            if t.args[0] == "log":
+                # canonical key for a single sign-fixed polynomial argument: log(1-z) == log(-(z-1))
+                r = self.norm(t.args[1])
+                if not r.den and len(r.num) >= 1:
+                    pm, c = p_monic(r.num)
+                    if abs(c) == 1:
+                        sg = self.poly_sign(pm) if len(pm) > 1 else (1 if c > 0 else 0)
+                        if sg and (sg > 0) == (c > 0):
+                            i = self.atoms.get(("f", "log", ("poly", p_key(p_scale(pm, sg)))), ("f", ("log", repr(t.args[1]))))
+                            self.atom_terms.setdefault(i, t)
+                            return i
             keys = tuple(self.norm(a).key() for a in t.args[1:])
             i = self.atoms.get(("f", t.args[0], keys), ("f", (t.args[0], ",".join(map(repr, t.args[1:])))))
             if t.args[0] == "sqrt" and i not in self.sqrt_defs:
                 self.sqrt_defs[i] = self.norm(t.args[1])
-            return i
-        if t.op == "u":
+        elif t.op == "u":
             keys = tuple(self.norm(a).key() if isinstance(a, R) else ("lit", a) for a in t.args[1:])
-            return self.atoms.get(("u", t.args[0], keys), ("u", repr(t)))
-        raise OutOfReach(f"no atom for {t.op}")
+            i = self.atoms.get(("u", t.args[0], keys), ("u", repr(t)))
+        else:
+            raise OutOfReach(f"no atom for {t.op}")
+        self.atom_terms.setdefault(i, t)
+        return i
 
     def norm(self, t):
         r = self.memo.get(t._id)
@@ -322,6 +483,10 @@ class Normaliser:
         op = t.op
         if op == "c":
             r = RatFun.const(t.value)
+        elif op == "f" and t.args[0] in ("log", "logabs") and self.assume and (r := self.log_expand(t)) is not None:
+            pass
+        elif op == "f" and t.args[0] == "logabs" and self.assume and (r := self.logabs_single(t)) is not None:
+            pass
         elif op in ("v", "f", "u"):
             r = RatFun(p_atom(self.atom_for(t)))
         elif op == "+":
